@@ -1,4 +1,5 @@
 import ZkModel.Zkey
+import ZkModel.Qap
 import ZkModel.Basic
 import ZkModel.Hashers
 import ZkModel.Codec
@@ -467,6 +468,24 @@ def step (st : St) (line : String) : St × String :=
     match parseHexBytes bs with
     | some b => (st, match e.mode with | .model => Zkey.run b | .spec => "n/a")
     | none => (st, "bad-op")
+  -- `CircomReduction::witness_map_from_matrices` on small matrices: rows `c:i,c:i;…` (`_` = empty row, `-` = no rows)
+  | ["qap", sa, sb, ni, nc, sw] =>
+    let parseRows : String → Option (List (List (Nat × Nat))) := fun t =>
+      if t == "-" then some [] else
+      (t.splitOn ";").mapM (fun r => if r == "_" then some [] else
+        (r.splitOn ",").mapM (fun e => match e.splitOn ":" with
+          | [c, i] => match parseHexNat c, parseHexNat i with
+            | some c, some i => some (c, i)
+            | _, _ => none
+          | _ => none))
+    let parseW : String → Option (List Nat) := fun t => if t == "-" then some [] else (t.splitOn ",").mapM parseHexNat
+    match parseRows sa, parseRows sb, parseHexNat ni, parseHexNat nc, parseW sw with
+    | some a, some b, some ni, some nc, some w =>
+      let r := match e.mode with
+        | .model => Qap.witnessMap a b ni nc w
+        | .spec => Qap.witnessMapSpec a b ni nc w
+      (st, showOutcome (r.map (fun l => String.intercalate "," (l.map fr))))
+    | _, _, _, _, _ => (st, "bad-op")
   -- a reader that delivers a few bytes per `read()` call is still the same byte string (`read_exact` semantics)
   | ["zkey_chunk", _, bs] =>
     match parseHexBytes bs with
